@@ -11,6 +11,7 @@ func init() {
 			Harness{Fn: "ZZC01Expr", Quick: p("D", 1), Thorough: p("D", 2), ThoroughBudget: 25 * time.Minute, Expect: []string{"expr-ok", "witness:end"}, Cross: true},
 			Harness{Fn: "ZZC01Pairs", Expect: []string{"pair", "expr-ok", "witness:end"}},
 			Harness{Fn: "ZZC01Args", Expect: []string{"args-ok", "witness:end"}},
+			Harness{Fn: "ZZC01Print", Quick: p("PD", 1), Thorough: p("PD", 2), ThoroughBudget: 20 * time.Minute, Expect: []string{"print-ok", "witness:end"}},
 			Harness{Fn: "ZZC01Effects", Quick: p("NE", 3), Thorough: p("NE", 4), Expect: []string{"effects-ok", "witness:end"}},
 			Harness{Fn: "ZZC01Lists", Quick: p("N", 3), Thorough: p("N", 4), Expect: []string{"lists-ok", "witness:end"}},
 		)},
